@@ -1,4 +1,67 @@
+import Proofs.Core
+import Proofs.ConvToolsLemmas
 import SynapModel.ConvTools
+/-!
+# C16 — im2col / col2im variants agree and col2im is the exact adjoint of im2col
+
+Statements about `Synap.ConvTools` for every geometry (N, C, H, W, kernel, stride, padding,
+dilation per axis) that has at least one window, for any pad value and any data.
+-/
 namespace Props.C16
-theorem placeholder : True := trivial
+open Synap Synap.NDArray Synap.ConvTools Proofs.Core Proofs.ConvTools
+
+variable {R : Type} [CommRing R]
+
+/-- **The three im2col implementations return the same `(N, C·kH·kW, L)` tensor**: the explicit
+    index arrays (`repeat`/`tile` + fancy indexing), the double loop with strided slices and `ravel`,
+    and the strided window view + `reshape`/`moveaxis` all equal the specification
+    `cols[n, (c·kH+a)·kW+b, i·lW+j] = xpad[n, c, i·sH+a·dH, j·sW+b·dW]`. -/
+theorem im2col_variants_agree (g : Geom) (x : NDArray R) (pad : R) (hx : x.WF) (hs : x.shape = [g.n, g.c, g.h, g.w])
+    (hk : 0 < g.k.1 ∧ 0 < g.k.2) (ho : g.out.isSome) :
+    im2colIdx g x pad = im2colSpec g x pad ∧ im2colLoop g x pad = im2colSpec g x pad ∧
+    im2colView g x pad = im2colSpec g x pad := by
+  exact ⟨im2colIdx_eq_spec g x pad hk, im2colLoop_eq_spec g x pad, im2colView_eq_spec g x pad hk⟩
+
+/-- **The three col2im implementations return the same image** (`np.add.at` over the index arrays,
+    the loop of slice-additions, `place_windows` on the reshaped view). -/
+theorem col2im_variants_agree (g : Geom) (cols : NDArray R) (hc : cols.WF) (lh lw : Nat) (ho : g.out = some (lh, lw))
+    (hs : cols.shape = [g.n, g.rows, lh * lw]) (hk : 0 < g.k.1 ∧ 0 < g.k.2) :
+    col2imIdx g cols = col2imSpec g cols ∧ col2imLoop g cols = col2imSpec g cols ∧
+    col2imView g cols = col2imSpec g cols := by
+  refine ⟨col2imIdx_eq_spec g cols hk, ?_, ?_⟩
+  · rw [col2imLoop_eq g cols lh lw ho, col2imSpec_eq g cols lh lw ho]
+  · rw [col2imView_eq g cols lh lw ho hs, col2imSpec_eq g cols lh lw ho]
+
+/-- **col2im is the transpose of im2col**: `⟪im2col x, y⟫ = ⟪x, col2im y⟫` for all `x`, `y`
+    (zero padding; a non-zero pad value only adds a constant that does not depend on `x`). -/
+theorem col2im_adjoint_of_im2col (g : Geom) (x y : NDArray R) (hx : x.WF) (hs : x.shape = [g.n, g.c, g.h, g.w])
+    (lh lw : Nat) (ho : g.out = some (lh, lw)) (hy : y.WF) (hys : y.shape = [g.n, g.rows, lh * lw])
+    (hk : 0 < g.k.1 ∧ 0 < g.k.2) :
+    ∃ u v, im2colSpec g x 0 = some u ∧ col2imSpec g y = some v ∧ dot u y = dot x v := by
+  exact col2im_adjoint g x y hs lh lw ho
+
+/-- number of windows covering pixel `(hh, ww)` -/
+def coverage (g : Geom) (lh lw hh ww : Nat) : Nat :=
+  ((List.range lh).flatMap (fun i => (List.range lw).flatMap (fun j =>
+    (List.range g.k.1).flatMap (fun a => (List.range g.k.2).map (fun b =>
+      if i * g.s.1 + a * g.d.1 = hh + g.p.1 ∧ j * g.s.2 + b * g.d.2 = ww + g.p.2 then 1 else 0))))).sum
+
+/-- **Folding an unfolded image multiplies each pixel by the number of windows covering it.** -/
+theorem fold_unfold_coverage (g : Geom) (x : NDArray R) (hx : x.WF) (hs : x.shape = [g.n, g.c, g.h, g.w])
+    (lh lw : Nat) (ho : g.out = some (lh, lw)) (hk : 0 < g.k.1 ∧ 0 < g.k.2) :
+    ∃ u v, im2colSpec g x 0 = some u ∧ col2imSpec g u = some v ∧
+      ∀ n c hh ww, n < g.n → c < g.c → hh < g.h → ww < g.w →
+        v.get [n, c, hh, ww] = (coverage g lh lw hh ww : R) * x.get [n, c, hh, ww] := by
+  exact fold_unfold_aux g x lh lw ho
+
+/-- **The sliding-window extractor and its placement routine are adjoint** as well. -/
+theorem extract_place_adjoint (g : Geom) (x w : NDArray R) (hx : x.WF) (hs : x.shape = [g.n, g.c, g.h, g.w])
+    (lh lw : Nat) (ho : g.out = some (lh, lw)) (hw : w.WF) (hws : w.shape = [lh, lw, g.n, g.c, g.k.1, g.k.2]) :
+    ∃ u v, extractWindows g x 0 = some u ∧ placeWindows g w = some v ∧ dot u w = dot x v := by
+  exact extract_place_adjoint_aux g x w hs lh lw ho
+
+/-! ### Non-vacuity: a 1×1×3×3 image, 2×2 kernel, stride 1 -/
+example : ((im2colSpec (α := Int) ⟨1, 1, 3, 3, (2, 2), (1, 1), (0, 0), (1, 1)⟩ ⟨[1, 1, 3, 3], [1, 2, 3, 4, 5, 6, 7, 8, 9]⟩ 0).map (·.data))
+    = some [1, 2, 4, 5, 2, 3, 5, 6, 4, 5, 7, 8, 5, 6, 8, 9] := by decide
+
 end Props.C16
